@@ -148,6 +148,18 @@ func (configgen *ConfigGeneratorImpl) BuildDeltaClusters(proxy *model.Proxy, upd
 
 		deletedClusters.InsertAll(deleted...)
 	}
+	if !servicesDiffed {
+		// A push context is built from the state of the registries and of the config store at that moment, which may be
+		// ahead of the events delivered so far: the scope of the proxy can already hold services (a Sidecar was deleted,
+		// a service was created or exported) whose own event is still on its way. When that event arrives, neither the
+		// scope nor the previous scope change any more and it is dropped as irrelevant to the proxy. So whatever the
+		// keys of this push are, build the services of the scope that the proxy watches no cluster for.
+		for _, svc := range configgen.deltaFromMissingServices(proxy, updates.Push, serviceClusters) {
+			if !have.InsertContains(svc.Hostname.String()) {
+				services = append(services, svc)
+			}
+		}
+	}
 	// ConfigsUpdated is a set: order the services by hostname (they are unique by hostname here), so that the order of
 	// the clusters in the delta response does not follow map iteration order.
 	services = slices.SortBy(services, func(s *model.Service) host.Name { return s.Hostname })
@@ -304,6 +316,31 @@ func (configgen *ConfigGeneratorImpl) deltaFromServiceDiff(
 	}
 
 	return services, deletedClusters
+}
+
+// deltaFromMissingServices returns the services of the proxy's scope for which the proxy watches no cluster yet.
+func (configgen *ConfigGeneratorImpl) deltaFromMissingServices(
+	proxy *model.Proxy,
+	push *model.PushContext,
+	serviceClusters map[string]sets.String,
+) []*model.Service {
+	// as in deltaFromServiceDiff: the scope of the proxy was never recomputed, which only happens in tests
+	if proxy.PrevSidecarScope == nil {
+		return nil
+	}
+	var allServices []*model.Service
+	if features.FilterGatewayClusterConfig && proxy.Type == model.Router {
+		allServices = push.GatewayServices(proxy, nil)
+	} else {
+		allServices = proxy.SidecarScope.Services()
+	}
+	var services []*model.Service
+	for _, service := range allServices {
+		if _, ok := serviceClusters[service.Hostname.String()]; !ok {
+			services = append(services, service)
+		}
+	}
+	return services
 }
 
 // deltaFromPeerAuthentication computes the delta clusters when a PeerAuthentication changes.
